@@ -342,7 +342,22 @@ def check_C08(lines, obs):
                     if v != 0:
                         return fail("sf", "survival table is zero for cohorts later than the year", 0, float(v))
                     continue
-                want = sum(c.w[q] * c.svals[(q, cc)][(t - cc) * m + j] for q in range(len(c.w)))
+                def sval(q):
+                    # what scipy returned when the code asked; where the code did not ask (it is
+                    # expected to, for every cohort and quadrature point), the closed form
+                    vals = c.svals.get((q, cc))
+                    if vals is not None and (t - cc) * m + j < len(vals):
+                        return vals[(t - cc) * m + j]
+                    age = c.bounds[t + 1] - (c.eta[q] * c.bounds[cc + 1] + (1 - c.eta[q]) * c.bounds[cc])
+                    if c.prmspecs and c.dimlens:
+                        p = {name: float(prm_by_label(c, sp, cc, j)) for name, sp in c.prmspecs.items()}
+                    else:
+                        p = {name: float(v[cc * m + j]) for name, v in c.prms.items()}
+                    cf = closed_form_sf(c.cls, age, p)
+                    if cf is None:
+                        raise KeyError((q, cc))
+                    return Fraction(cf)
+                want = sum(c.w[q] * sval(q) for q in range(len(c.w)))
                 if not close(v, want):
                     return fail("sf", f"entry = quadrature average of the survival function (t={t}, c={cc}, j={j})", float(want), float(v))
                 if v < -TOL or v > 1 + TOL:
